@@ -106,6 +106,11 @@ func c08Exec(k *c08Case) *c08Outcome {
 	for i := range rules {
 		rules[i] = r.Bytes(1040 + 4*r.Intn(6))
 		binary.LittleEndian.PutUint32(rules[i][0:], uint32(i+1000)) // unique id
+		// a dump entry is whatever the kernel put after the header: also nothing at all, or a few bytes (the dump
+		// ends with NLMSG_DONE and nothing else)
+		if fr := r.Fork(uint64(31 + i)); fr.Chance(1, 6) {
+			rules[i] = rules[i][:mon.Pick(fr, []int{0, 0, 4, 16, 1039})]
+		}
 	}
 	out.Planned.Rules = rules
 	out.Planned.Status = statusPayload(r, uapi.StatusSize)
